@@ -953,6 +953,20 @@ func (ev *Ev) call(n *ast.CallExpr) Val {
 		case MapSnap:
 			return Sc{T: m.M.Dom, Sort: arrSort(m.M.KSort, "Bool")}
 		}
+	case "vals":
+		// the value array of a Go map with scalar values (meaningful at the keys of dom(m))
+		need(1)
+		var mv Val
+		switch m := arg(0).(type) {
+		case MapV:
+			mv = ev.cur.maps[m.ID].Val
+		case MapSnap:
+			mv = m.M.Val
+		}
+		if sc, ok := mv.(Sc); ok {
+			return sc
+		}
+		ev.errf("vals of %T", arg(0))
 	case "min":
 		need(2)
 		return intV(sApp("min2", tm(arg(0)), tm(arg(1))))
